@@ -291,12 +291,20 @@ def max_rel(a, b, c):
 PERTURB = 2.0 ** -20
 # A genuine equivariance defect (absolute threshold, unscaled constant) persists for every
 # neighbouring factor and leaves the base run stable under factors next to 1. A rounding tie
-# (base run sitting exactly on an argmax / searchsorted / unique / phase<0.5 discontinuity, seen
-# in ~1 % of non-power-of-two cases with rescaling_intervals in {2,5}: cumulative area hitting a
-# linspace value exactly) flips with some probability p per factor. False-alarm probability given
-# a tie: p^(1+6) (1-p)^16 <= 7e-7 (max at p=0.30).
-CONFIRM = (1, -1, 2, -2, 3, -3)
-TIE_PROBES = (1, -1, 2, -2, 3, -3, 4, -4, 5, -5, 6, -6, 7, -7, 8, -8)
+# (base run sitting exactly on an argmax / searchsorted / unique / phase<0.5 discontinuity; seen
+# in ~1 % of non-power-of-two cases with rescaling_intervals in {2,5}, mostly on built inputs
+# with dyadic times and spans where the cumulative area hits a linspace value exactly) flips
+# with probability ~1/2 under ANY generic relative perturbation of the inputs.
+# The probe factors must have full-length mantissas: factors like 1+2^-20 multiply dyadic inputs
+# exactly and leave such a tie intact (seen: seed 1, C07, 3 false alarms with the first version
+# of this rule, replay base 6000 / generic factors 5625, 6000 or 6428.57), and the roundings
+# under neighbouring factors c(1+j 2^-20) are correlated, so the confirmation stage alone is
+# weak evidence; it is the tie test that keeps ties out. False-alarm probability given a tie
+# that flips with probability p per probe: <= (1-p)^16 (1.5e-5 for p = 1/2).
+_GENERIC = (0.7853981633974483, 0.6180339887498949, 0.5772156649015329, 0.6931471805599453,
+            0.36787944117144233, 0.915965594177219, 0.8346268416740732, 0.5671432904097838)
+CONFIRM = tuple(1 + sgn * PERTURB * g for g in _GENERIC[:3] for sgn in (1, -1))
+TIE_PROBES = tuple(1 + sgn * PERTURB * g for g in _GENERIC for sgn in (1, -1))
 
 
 def _relate(ts, cfg, c, kind, base, exact, tol):
@@ -328,10 +336,10 @@ def judge(ts, cfg, c, pow2, kind, ctx, tol):
     """The metamorphic verdict shared by C06 (kind='time') and C07 (kind='coord').
     Returns (verdict, info): verdict in {"held","discard","violation"}.
     Exact comparison for powers of two; otherwise tolerance + the confirmation rule of
-    DESIGN §4, strengthened (mismatch must persist for the six factors c(1 + j 2^-20), |j|<=3) +
-    a tie test (the base run must itself be stable under the sixteen factors 1 + j 2^-20, |j|<=8,
-    else the mismatch is a rounding tie at a discontinuity: argmax / searchsorted / unique /
-    phase<0.5)."""
+    DESIGN §4, strengthened (mismatch must persist for six factors c(1 +- g 2^-20)) + a tie test
+    (the base run must itself be stable under sixteen generic factors 1 +- g 2^-20, g full-mantissa
+    constants in (0.3,1), else the mismatch is a rounding tie at a discontinuity: argmax /
+    searchsorted / unique / phase<0.5)."""
     base = run(ts, cfg)
     if base[0] == "domain":
         return "discard", "domain:" + base[1]
@@ -347,14 +355,14 @@ def judge(ts, cfg, c, pow2, kind, ctx, tol):
     if pow2:
         return "violation", (r[2], r[1])
     ctx.label("first_stage_mismatch")
-    for j in CONFIRM:
-        r2 = _relate(ts, cfg, c * (1 + j * PERTURB), kind, base, False, tol)
+    for f in CONFIRM:
+        r2 = _relate(ts, cfg, c * f, kind, base, False, tol)
         if r2[0] != "mismatch":
             return "discard", "numerical tie: mismatch not confirmed by neighbouring factor"
-    for j in TIE_PROBES:
-        r3 = _relate(ts, cfg, 1 + j * PERTURB, kind, base, False, tol)
+    for f in TIE_PROBES:
+        r3 = _relate(ts, cfg, f, kind, base, False, tol)
         if r3[0] != "match":
-            return "discard", "numerical tie: base run unstable under factors 1+j*2^-20"
+            return "discard", "numerical tie: base run unstable under generic factors 1+-g*2^-20"
     return "violation", (r[2], r[1])
 
 
